@@ -4,9 +4,11 @@ import (
 	"fmt"
 	"math/rand"
 	"os"
+	"reflect"
 
-	"github.com/projectcalico/calico/felix/calc"
-	"github.com/projectcalico/calico/libcalico-go/lib/backend/api"
+	"github.com/projectcalico/calico/libcalico-go/lib/backend/model"
+	v3v "github.com/projectcalico/calico/libcalico-go/lib/validator/v3"
+	v1v "github.com/projectcalico/calico/typha/pkg/validator/v1"
 
 	"verif/internal/shadowdp"
 )
@@ -86,34 +88,49 @@ func (sc *Scenario) RunFresh(s State, perm []int, inSyncFirst bool) *SyncRun {
 	return RunOps(sc.U, sc.Graph, FreshOps(sc.U, s, perm, inSyncFirst), nil)
 }
 
-// SelfCheck pushes every candidate value of the universe through a real calc.ValidationFilter and
-// reports the first disagreement between the generator's validity tag and the filter's verdict.
+// SelfCheck verifies the generator's validity tags against the repo's validators (the trusted
+// base: typha/pkg/validator/v1 for backend-model values, libcalico-go/lib/validator/v3 for v3
+// resources, plus the two workload-endpoint rules of the validation filter restated here: a
+// workload endpoint needs a name, and source-spoofing prefixes need WorkloadSourceSpoofing=Any).  It
+// deliberately does NOT go through calc.ValidationFilter, which is code under test.
 func (u *Universe) SelfCheck() error {
 	Quiet()
 	conf := NewConfig(GraphOptions{})
-	sink := &captureSink{}
-	f := calc.NewValidationFilter(sink, conf)
-	for k, ks := range u.Keys {
+	for _, ks := range u.Keys {
 		for v, val := range ks.Values {
-			sink.last = nil
-			f.OnUpdates([]api.Update{u.Update(KV{k, v}, api.UpdateTypeKVNew)})
-			if len(sink.last) != 1 {
-				return fmt.Errorf("validation filter forwarded %d updates for one", len(sink.last))
-			}
-			passed := sink.last[0].Value != nil
-			if passed != val.Valid {
-				return fmt.Errorf("validity tag mismatch for %v value #%d (%s): tagged valid=%v, validation filter passed=%v",
-					ks.Key, v, val.Desc, val.Valid, passed)
+			ok := validByRepoValidators(ks.Key, val.New(), conf.WorkloadSourceSpoofing)
+			if ok != val.Valid {
+				return fmt.Errorf("validity tag mismatch for %v value #%d (%s): tagged valid=%v, repo validators say valid=%v",
+					ks.Key, v, val.Desc, val.Valid, ok)
 			}
 		}
 	}
 	return nil
 }
 
-type captureSink struct{ last []api.Update }
-
-func (c *captureSink) OnStatusUpdated(api.SyncStatus) {}
-func (c *captureSink) OnUpdates(u []api.Update)       { c.last = u }
+func validByRepoValidators(key model.Key, value any, spoofing string) bool {
+	rv := reflect.ValueOf(value)
+	if rv.Kind() == reflect.Pointer && rv.Elem().Kind() == reflect.Struct {
+		var err error
+		if _, isV3 := key.(model.ResourceKey); isV3 {
+			err = v3v.Validate(rv.Elem().Interface())
+		} else {
+			err = v1v.Validate(rv.Elem().Interface())
+		}
+		if err != nil {
+			return false
+		}
+	}
+	if w, ok := value.(*model.WorkloadEndpoint); ok {
+		if w.Name == "" {
+			return false
+		}
+		if len(w.AllowSpoofedSourcePrefixes) > 0 && spoofing != "Any" {
+			return false
+		}
+	}
+	return true
+}
 
 // Witness renders the scenario for a violation's detail (bounded size).
 func (sc *Scenario) Witness() map[string]any {
